@@ -198,6 +198,8 @@ func runC22(c *fw.Ctx, idx int) {
 				c22CheckSize(c, "float", []ev.Event{{K: ev.FLOAT, F: h}}, c22FloatSize(h), lo < 2)
 				bf := new(big.Float).SetFloat64(g)
 				c22CheckSize(c, "float", []ev.Event{{K: ev.BFLOAT, BF: bf}}, c22FloatSize(g), false)
+				// a big.Float that is exactly a float64 using all 53 significand bits, at several precisions
+				c22BigFloatLikeFloat(c, h)
 			}
 		}
 	case idx < 80+256+41:
@@ -235,10 +237,35 @@ func runC22(c *fw.Ctx, idx int) {
 			f := gen.Float64Value(c.Rng)
 			if !math.IsInf(f, 0) && f != 0 {
 				c22CheckSize(c, "float", []ev.Event{{K: ev.FLOAT, F: f}}, c22FloatSize(f), false)
+				c22BigFloatLikeFloat(c, f)
+				c22BigFloatLikeFloat(c, math.Float64frombits(math.Float64bits(f)|1))
 			}
 		}
 	default:
 		c22Idempotence(c)
+	}
+}
+
+// c22BigFloatLikeFloat: a big.Float event whose value is exactly the float64 f must be written like the float event
+// for f (same minimal form, same bytes), whatever precision the big.Float carries.
+func c22BigFloatLikeFloat(c *fw.Ctx, f float64) {
+	if math.IsNaN(f) || math.IsInf(f, 0) || f == 0 {
+		return
+	}
+	want, p := c22Encode([]ev.Event{{K: ev.FLOAT, F: f}})
+	if p != nil {
+		return
+	}
+	for _, prec := range []uint{53, 64, 113, 200} {
+		bf := new(big.Float).SetPrec(prec).SetFloat64(f)
+		e := []ev.Event{{K: ev.BFLOAT, BF: bf}}
+		c22CheckSize(c, "float", e, c22FloatSize(f), false)
+		got, p := c22Encode(e)
+		c.Inc("bigfloat_vs_float_compared")
+		if p == nil && !bytes.Equal(got, want) {
+			c.Fail("not-canonical:bigfloat-differs-from-float", map[string]interface{}{"float": fmt.Sprintf("%x", f), "precision": prec, "as_float": hexs(want), "as_bigfloat": hexs(got)})
+			return
+		}
 	}
 }
 
